@@ -441,6 +441,41 @@ fn substitutions<C: Suite>(o: &mut Outcome, tag: &str, n: u16, t: u16, k: usize,
             }
         }
     }
+    // the share of pos i RE-FILED under an identifier that is not in the signing package (a group member that does
+    // not sign in this session, or a stranger): same number of shares, same sum - every mode must reject,
+    // with the current and with the pre-3.0 (threshold-less) public key package
+    {
+        let mut outsiders: Vec<Id<C>> = w.grp.ids.iter().filter(|i| !w.s.contains(i)).take(1).copied().collect();
+        outsiders.push(fc::Identifier::<C>::try_from(31337u16).unwrap());
+        let legacy = PublicKeyPackage::<C>::new(w.grp.pkp.verifying_shares().clone(), *w.grp.pkp.verifying_key(), None);
+        for i in 0..k {
+            for x in &outsiders {
+                let mut sm = shares.clone();
+                let z = sm.remove(&w.s[i]).unwrap();
+                sm.insert(*x, z);
+                for (pn, pk) in [("current", &w.grp.pkp), ("legacy", &legacy)] {
+                    for (mn, md) in [("Disabled", 0), ("FirstCheater", 1), ("AllCheaters", 2)] {
+                        let cd = match md {
+                            0 => fc::CheaterDetection::Disabled,
+                            1 => fc::CheaterDetection::FirstCheater,
+                            _ => fc::CheaterDetection::AllCheaters,
+                        };
+                        o.eval(true);
+                        o.count("transitions", 1);
+                        if C::w_aggregate_custom(&pkg, &sm, pk, cd).is_ok() {
+                            o.fail(format!("{tag}/substitution-accepted/aggregate/claimed-identifier-outside-package"), format!("{ctx}: share of pos {i} re-filed under {} ({pn} public key package, {mn}): aggregate returned Ok", id_short::<C>(x)));
+                        } else {
+                            o.count("substitutions_rejected", 1);
+                        }
+                    }
+                }
+                o.eval(true);
+                if C::w_aggregate(&pkg, &sm, &legacy).is_ok() || C::w_aggregate(&pkg, &sm, &w.grp.pkp).is_ok() {
+                    o.fail(format!("{tag}/substitution-accepted/aggregate/claimed-identifier-outside-package"), format!("{ctx}: share of pos {i} re-filed under {}: aggregate() returned Ok", id_short::<C>(x)));
+                }
+            }
+        }
+    }
     // ---------------- signer side ----------------
     for i in 0..k {
         let id = w.s[i];
